@@ -5,6 +5,7 @@ package main
 // contracts of its callees at call sites.
 
 import (
+	"golang.org/x/tools/go/ssa"
 	"fmt"
 	"go/constant"
 	"go/token"
@@ -1259,6 +1260,7 @@ func (e *SpecEnv) evalCall(n *ECall) SVal {
 			}
 		}
 		pv := e.x.pureResults(fn, fc, args, e.st())
+		e.assumePureContract(fn, fc, args, pv)
 		if len(pv) == 1 {
 			return SVal{V: pv[0], T: fn.Signature.Results().At(0).Type()}
 		}
@@ -1266,6 +1268,52 @@ func (e *SpecEnv) evalCall(n *ECall) SVal {
 	}
 	sfail("unknown function %q in specification", name)
 	return SVal{}
+}
+
+// assumePureContract: an application of a pure function written in a specification obeys that function's contract
+// (requires ==> ensures), as its applications in code do. Not used for the function being verified itself.
+func (e *SpecEnv) assumePureContract(fn *ssa.Function, fc *FuncContract, args []Val, results []Val) {
+	x := e.x
+	if x.fn == fn || len(results) == 0 || results[0] == nil || e.depth > 6 {
+		return
+	}
+	var key *Term
+	switch r := results[0].(type) {
+	case *Term:
+		key = r
+	case StrVal:
+		key = r.Len
+	}
+	if key == nil {
+		return
+	}
+	if x.pureSpecDone == nil {
+		x.pureSpecDone = map[*Term]bool{}
+	}
+	if x.pureSpecDone[key] {
+		return
+	}
+	x.pureSpecDone[key] = true
+	o := e.o()
+	sub := &SpecEnv{x: x, pk: e.pk, vars: map[string]SVal{}, pre: e.st(), post: e.st(), tparams: tparamMap(fn), depth: e.depth + 1, allocPre: e.allocPre}
+	for i, p := range fn.Params {
+		sub.vars[p.Name()] = SVal{V: args[i], T: p.Type()}
+	}
+	res := fn.Signature.Results()
+	names := resultNames(fn)
+	for i := range results {
+		for _, n := range names[i] {
+			sub.vars[n] = SVal{V: results[i], T: res.At(i).Type()}
+		}
+	}
+	var reqs, ens []*Term
+	for _, c := range fc.Requires {
+		reqs = append(reqs, sub.evalBool(c.E))
+	}
+	for _, c := range fc.Ensures {
+		ens = append(ens, sub.evalBool(c.E))
+	}
+	x.assumeClosed(o.Implies(o.And(reqs...), o.And(ens...)))
 }
 
 func (e *SpecEnv) callPure(pk *Pkg, pf *PureFunc, args []Expr) SVal {
